@@ -314,6 +314,8 @@ func CheckC14(run *Run) {
 	reqs = append(reqs, C14NestedCatalogue(run.Tier)...)
 	behaviour := len(reqs) // the schemas above are also built and driven
 	reqs = append(reqs, RuntimeCatalogue()...)
+	// annotation texts that need escaping in emitted string literals (file sets and byte parity only)
+	reqs = append(reqs, HostileTextCatalogue()...)
 	// generate_mock variants (file names only)
 	for _, id := range []string{"ftflat", "ftmulti", "ftnull"} {
 		for _, r := range feats {
